@@ -68,11 +68,11 @@ def replay(o, tree):
             return dict(jobs=None, experiment="the real command line started in another directory (contracts/c13.py unit_paths_rac)", observed=r["bad"][:1], reproduced=True)
     from contracts import c16
     for k in ("linkfiles", "repeat"):
-        r = c16.replay(dict(o, cfg=dict(kind=k), kind="vc", label=o.get("label", "")), tree)
+        r = c16.replay(dict(o, cfg=dict(kind=k), kind="vc", label=o.get("label", ""), _shared_replay=True), tree)
         if r is not None and r.get("reproduced"):
             return r
     from contracts import c02
-    return c02.replay(dict(o, cfg=dict(kind="linkfiles")), tree)
+    return c02.replay(dict(o, cfg=dict(kind="linkfiles"), _shared_replay=True), tree)
 
 
 # ------------------------------------------------------------------ the lazy-evaluation kernel (deferred.py)
@@ -141,5 +141,5 @@ def unit_x_resolve(eng, name, lz):
 def expr_replay(o, tree):
     if (o.get("cfg") or {}).get("kind") in ("infix", "prefix", "again"):
         from contracts import c05
-        return c05.replay(o, tree)
+        return c05.replay(dict(o, _shared_replay=True), tree)
     return None
